@@ -741,9 +741,18 @@ Definition oracle_step (g : ledger) (op out : list Z) : option ledger :=
                   end
           | _, _ => None
           end
-      | Some _, [1; _] =>
+      | Some _, [1; e] =>
           match pending k h with
-          | Some _ => Some (with_hist g (EIncDone k :: h))
+          | Some d =>
+              if e =? 3 then
+                (* the connection existed for a moment (first packet rejected, then Drained): it
+                   was the last claimant of its tuple and initial DCID; ghost handle [-1 - k] *)
+                match lookup [k] (g_incs g) with
+                | Some (r, l) =>
+                    Some (with_hist g (EDrain (-1 - k) :: ECreate (-1 - k) true r l d :: EIncDone k :: h))
+                | None => None
+                end
+              else Some (with_hist g (EIncDone k :: h))
           | None => None
           end
       | _, [-1] => Some g
